@@ -43,7 +43,7 @@ def run(ctx):
             for h in hists:
                 for th in ([1, 2, nthreads] if ctx.quick else [1, 2, 3, 5, nthreads]):
                     calls.append(dict(kind="hist", seed=seed, threads=th, qidx=h, rc=rc, tbins=tb, as_torch=rng.random() < 0.3,
-                                      n_nearest=rng.choice([0, 0, 1, 2, 7]) if not (rc and tb) else 0))
+                                      n_nearest=rng.choice([0, 1, 2, 3, 4, 7]) if not (rc and tb) else 0))
                 if len({h.count(x) for x in h}) >= 1 and len(set(h)) > 1:
                     ctx.nontrivial(repr((seed, rc, tb, h)))
             calls.append(dict(kind="annotate", seed=seed, threads=nthreads))
